@@ -68,8 +68,9 @@ type incarnation struct {
 	listed     map[string]bool // instances from which a crunch-run --list answer has been delivered
 	listings   int
 
-	stalls    int  // root only
-	stallsOff bool // written on root while the main task is parked, read by the main task
+	unlocking map[string]string // container -> why this dispatcher's own Unlock call is in flight (root only; read by the main task)
+	stalls    int               // root only
+	stallsOff bool              // written on root while the main task is parked, read by the main task
 }
 
 // stall models a slow or paused dispatcher host: the calling goroutine of the dispatcher
@@ -318,7 +319,27 @@ func (p *queueProxy) Unlock(uuid string) error {
 			})
 		}
 	}
+	// the dispatcher's own unlock (requeue) request is on its way from here until its answer is back
+	why := "other"
+	if curTask() != inc.mainTask {
+		if c, ok := p.q.Get(uuid); ok && c.Priority == 0 {
+			why = "priority-0"
+		} else if ok {
+			why = "process-gone"
+		}
+	}
+	inc.s.w.Park("oracle-note", "", nil, func() any {
+		if inc.unlocking == nil {
+			inc.unlocking = map[string]string{}
+		}
+		inc.unlocking[uuid] = why
+		return nil
+	})
 	err := p.q.Unlock(uuid)
+	inc.s.w.Park("oracle-note", "", nil, func() any {
+		delete(inc.unlocking, uuid)
+		return nil
+	})
 	p.commit(err)
 	return err
 }
@@ -411,6 +432,12 @@ func (p *poolProxy) StartContainer(it arvados.InstanceType, ctr arvados.Containe
 	}
 	ps.started[uuid] = true
 	w.Probe("start-decided")
+	// ---- C14: "a container that was ... re-queued has its lingering process killed rather than restarted":
+	// no start while this dispatcher's own unlock of the container is on its way
+	if why, busy := inc.unlocking[uuid]; busy {
+		s.viol("C14", "start-while-own-unlock-in-flight", "requeue-because-"+why,
+			"dispatcher %d started container %s while its own unlock (requeue, reason: %s) of that container was still in flight", inc.n, uuid, why)
+	}
 	// ---- C16 order clause 1 (trace invariant within the pass)
 	if hp, refused := ps.refused[it.Name]; refused && inSnap && se.prio < hp {
 		s.viol("C16", "lower-priority-started-after-higher-was-refused", "",
